@@ -11,11 +11,17 @@ EXTENDS Integers, Sequences, FiniteSets, TLC, Json
 CONSTANTS Emit
 
 Pres == {"none", "heredoc", "heredoc-backslash-newline", "nowdoc", "multiline-string", "string-backslash-newline",
-         "block-comment", "multibyte", "interpolation", "crlf", "inline-html"}
+         "block-comment", "multibyte", "interpolation", "crlf", "inline-html", "qualified-names"}
 PreLines(p) == CASE p = "none" -> 0 [] p = "heredoc" -> 5 [] p = "heredoc-backslash-newline" -> 6 [] p = "nowdoc" -> 4
                  [] p = "multiline-string" -> 3 [] p = "string-backslash-newline" -> 3 [] p = "block-comment" -> 4
                  [] p = "multibyte" -> 2 [] p = "interpolation" -> 2 [] p = "crlf" -> 3 [] p = "inline-html" -> 4
-Faults == {"parse-error", "undefined-function", "uncaught-throw", "caught-getLine", "undefined-method"}
+                 [] p = "qualified-names" -> 3
+Faults == {"parse-error", "undefined-function", "uncaught-throw", "caught-getLine", "undefined-method",
+           "undefined-method-trailing-arrow", "undefined-method-leading-arrow", "undefined-function-in-multiline-call"}
+\* a construct may be written over several lines; the fault sits on the line of the member / callee name:
+\*   $o->          $o                 outer_ok(1,
+\*     nope()        ->nope()             undefined_fn(2))
+FaultOffset(f) == IF f \in {"undefined-method-trailing-arrow", "undefined-method-leading-arrow", "undefined-function-in-multiline-call"} THEN 1 ELSE 0
 Places == {"middle", "last", "last-no-semicolon"}
 Modes == {"script", "template", "template-shebang"}     \* template-shebang: "#!..." line, then "<?php"
 
@@ -23,9 +29,10 @@ Scenarios == {[pre |-> p, fault |-> f, place |-> pl, lead |-> ld, mid |-> md, mo
                 p \in Pres, f \in Faults, pl \in Places, ld \in {1, 3}, md \in {0, 3}, m \in Modes}
 Valid(x) == /\ (x.pre = "inline-html" => x.mode # "script")
             /\ (x.mode = "template-shebang" => x.lead = 1 /\ x.mid = 0 /\ x.place = "middle")
-            /\ (x.place = "last-no-semicolon" => x.fault \in {"undefined-function", "undefined-method", "uncaught-throw"})
+            /\ (x.place = "last-no-semicolon" => x.fault \in {"undefined-function", "undefined-method", "uncaught-throw",
+                                                              "undefined-method-trailing-arrow", "undefined-method-leading-arrow"})
 \* template mode: line 1 is "<?php" (after the shebang line, if any)
-FaultLine(x) == (CASE x.mode = "template" -> 1 [] x.mode = "template-shebang" -> 2 [] OTHER -> 0) + x.lead + PreLines(x.pre) + x.mid + 1
+FaultLine(x) == (CASE x.mode = "template" -> 1 [] x.mode = "template-shebang" -> 2 [] OTHER -> 0) + x.lead + PreLines(x.pre) + x.mid + 1 + FaultOffset(x.fault)
 
 VARIABLES sc, done
 vars == <<sc, done>>
